@@ -2,13 +2,16 @@ package c16
 
 import (
 	"fmt"
+	"github.com/prometheus/alertmanager/matcher/compat"
 	"net/url"
 	"os"
+	"regexp"
 	"sort"
 	"strings"
 	"testing"
 	"testing/synctest"
 	"time"
+	"unicode/utf8"
 
 	yaml "gopkg.in/yaml.v2"
 
@@ -176,4 +179,71 @@ func TestOneMeaningEverywhere(t *testing.T) {
 			sub.Case(vf.Digest(fmt.Sprint(ref), fmt.Sprint(lsets)), interesting && verdicts[true] && verdicts[false])
 		})
 	})
+}
+
+// TestClassicRawQuotedValues: what the classic grammar has always taken literally. A classic matcher
+// `name<op>"<text>"` whose text contains neither a double quote nor a backslash needs no escaping: the
+// classic parser must accept it and return the text unchanged - whatever else it contains (blanks at the
+// ends, commas, braces, tabs, raw line feeds: "literal line feed characters are tolerated") - and the
+// fallback parsers must still accept it ("an input accepted only by the classic parser is still
+// accepted"), alone and as an element of a list.
+func TestClassicRawQuotedValues(t *testing.T) {
+	run := vf.Cur()
+	sub := run.Sub("classic-raw-quoted-values", "classic label names x the four operators x quoted texts without double quote or backslash (vocabulary values, their concatenations; blanks, commas, braces, tabs, raw line feeds and carriage returns, multi-byte runes): labels.ParseMatcher on name+op+'\"'+text+'\"' must succeed with exactly that name, operator and text (regex operators: when the text compiles), the fallback single-matcher parser must return the same, and labels.ParseMatchers / the fallback list parser on '{'+matcher+'}' and on the two-element list must contain it; non-trivial = the text contains a control character, a comma or a brace; distinct by input", 200)
+	n := run.N(4000, 400000)
+	fb1 := compat.FallbackMatcherParser(logger)
+	fbN := compat.FallbackMatchersParser(logger)
+	var texts []string
+	for _, v := range append(append([]string{}, values...), "line one\nline two", "a\r\nb", "\n", "x\n", "\ny", "tab\there", "a\n\nb", "é\nü") {
+		if !strings.ContainsAny(v, "\"\\") && utf8.ValidString(v) {
+			texts = append(texts, v)
+		}
+	}
+	for i := 0; i < n; i++ {
+		r := sub.Rand(i)
+		name, op := gen.Pick(r, classicNames), gen.Pick(r, ops)
+		text := gen.Pick(r, texts)
+		if r.Intn(3) == 0 {
+			text += gen.Pick(r, texts)
+		}
+		if op == "=~" || op == "!~" {
+			if _, err := regexp.Compile("^(?:" + text + ")$"); err != nil {
+				continue
+			}
+		}
+		in := name + op + `"` + text + `"`
+		interesting := strings.ContainsAny(text, "\n\r\t,{}")
+		sub.Case(vf.Digest(in), interesting)
+		want := model.Matcher{Name: name, Op: op, Value: text}
+		w := map[string]any{"input": fmt.Sprintf("%q", in)}
+		m, err, pan := call1(labels.ParseMatcher, in)
+		if pan != nil || err != nil || !sameMatcher(m, want) {
+			w["classic"] = fmt.Sprint(m, err, pan)
+			sub.Violation("classic-parser-does-not-take-a-quoted-text-literally", w)
+			continue
+		}
+		f, ferr, fpan := call1(func(x string) (*labels.Matcher, error) { return fb1(x, "verif") }, in)
+		if fpan != nil || ferr != nil || !sameMatcher(f, want) {
+			w["fallback"] = fmt.Sprint(f, ferr, fpan)
+			sub.Violation("fallback-parser-rejects-or-changes-a-classic-quoted-text", w)
+			continue
+		}
+		for _, list := range []string{"{" + in + "}", "{" + in + `,zz="1"}`} {
+			if strings.Contains(text, ",") || strings.ContainsAny(text, "{}") {
+				break // the classic list splitter has its own rules for commas and braces inside quotes: not claimed here
+			}
+			ms, lerr, lpan := callN(func(x string) (labels.Matchers, error) { g, e := labels.ParseMatchers(x); return labels.Matchers(g), e }, list)
+			if lpan != nil || lerr != nil || len(ms) == 0 || !sameMatcher(ms[0], want) {
+				w["list"], w["classic_list"] = fmt.Sprintf("%q", list), fmt.Sprint(ms, lerr, lpan)
+				sub.Violation("classic-list-parser-does-not-take-a-quoted-text-literally", w)
+				break
+			}
+			fs, flerr, flpan := callN(func(x string) (labels.Matchers, error) { return fbN(x, "verif") }, list)
+			if flpan != nil || flerr != nil || len(fs) == 0 || !sameMatcher(fs[0], want) {
+				w["list"], w["fallback_list"] = fmt.Sprintf("%q", list), fmt.Sprint(fs, flerr, flpan)
+				sub.Violation("fallback-list-parser-rejects-or-changes-a-classic-quoted-text", w)
+				break
+			}
+		}
+	}
 }
